@@ -219,7 +219,7 @@ def cmd_sweep_table(path):
             n += 1
             k += 1 if r['caught'] else 0
             cells.append('caught' if r['caught'] else 'MISSED')
-        if not all(c == 'caught' for c in cells):
+        if any(c == 'MISSED' for c in cells):
             rows.append('| %s | %s | %s |' % (sid, ' | '.join(cells), 'not caught at seed 0 either (see the list above)' if by_design[sid] else '**seed-dependent**'))
     print('%d runs (%d changes x seeds %s): %d caught.' % (n, len(res), ', '.join(seeds), k))
     print()
